@@ -257,7 +257,12 @@ func (zns *ZnPMServer) maintainChildState(cfg ZnPMServerConfig, ln *net.TCPListe
 		select {
 		case aw := <-zns.addChan:
 			zns.childs[aw.pid] = aw
-			zns.refCount = len(zns.childs)
+			// refCount also counts the processes that are still being spawned (reserved when a
+			// batch was started): a registration must never lower it, or the next batch would
+			// be sized as if those reservations did not exist and exceed MaxProcs
+			if len(zns.childs) > zns.refCount {
+				zns.refCount = len(zns.childs)
+			}
 		case uw := <-zns.updateChan:
 			if oldState, ok := zns.childs[uw.pid]; ok {
 				zns.childs[uw.pid] = workerState{
